@@ -9,7 +9,7 @@ from .. import framework as F
 from .. import terms as T
 
 DONORS_Q = ["C03", "C04", "C05", "C08", "C13", "C19", "C14", "C15", "C17"]
-DONORS_T = DONORS_Q + ["C06", "C09", "C16"]
+DONORS_T = DONORS_Q + ["C06", "C09", "C16", "C07", "C11"]
 PER_DONOR_Q = 80
 PER_DONOR_T = 400
 
